@@ -698,6 +698,7 @@ fn boundary(repo: &Path) -> R {
     in_order(
         &b,
         &[
+            "let layout=self.layout_of(return_type).unwrap_or_else(||Layout::new(0,1));let out_ptr=self.new_stack_slot(layout);",
             "args.push(Operand::Place(out_ptr.clone()));parameters.push((\"ret\".into(),IrType::Pointer));",
             "args.push(base.into());parameters.push((format!(\"vtable_{i}\").into(),IrType::Pointer));",
             "if!dyn_vals[i]{let Some(ty)=self.lower_type(ty)else{continue;};args.push(arg.into());parameters.push((i.to_string().into(),ty));continue;}",
